@@ -2667,6 +2667,25 @@ func (st *ConcState) FieldsOf(obj ssa.Value) map[string]string {
 	}
 	for k, v := range st.fvals {
 		if strings.HasPrefix(k, prefix) {
+			// a load of another object's field whose content is evident on this path stands for that content
+			for n := 0; n < 6; n++ {
+				ld, isLd := v.(*ssa.UnOp)
+				if !isLd || ld.Op != token.MUL {
+					break
+				}
+				fa, isFA := ld.X.(*ssa.FieldAddr)
+				if !isFA {
+					break
+				}
+				if _, isAlloc := fa.X.(*ssa.Alloc); !isAlloc {
+					break
+				}
+				src, has := st.fvals[addrKey(st, fa)]
+				if !has || src == v {
+					break
+				}
+				v = src
+			}
 			out[k[len(prefix):]] = st.Desc(v)
 		}
 	}
